@@ -1,18 +1,41 @@
 (* C09 - UDP datagrams are demultiplexed per client, in order; the server loop never crashes;
    a fresh virtual connection after one ended.
    Property theorems only; every proof is [exact <lemma>] (lemmas: proofs/UdpProofs.v).
-   [src_cfg] is the configuration read from /repo's layer4/server.go by tools/l4gen. *)
-From Coq Require Import List Arith Bool.
+   [g] ranges over all configurations of the model (capacities, statement order of Close, how
+   the loop sends and forgets); [src_cfg] is the configuration read from /repo's
+   layer4/server.go by tools/l4gen on every run; [legacy_cfg] is the code before the repairs
+   f8df28a / 9d1abd0. Executions are step lists chosen by an oracle: [run g init ts = Some s]. *)
+From Coq Require Import List Arith NArith Bool.
 From L4.model Require Import Udp.
 From L4.proofs Require Import UdpProofs.
 Import ListNotations.
 
-(* per_client_in_order, for every configuration and every execution *)
+(* ---- per_client_in_order: every configuration, every execution ---- *)
+
+(* what association c takes from its readCh is, in arrival order, a subsequence of the datagrams
+   that arrived from c's own address *)
 Theorem C09_per_client_in_order : forall g ts s c k,
   run g init ts = Some s -> get s c = Some k ->
   subseq (reads_of c (trace s)) (from (caddr k) (arrivals (trace s))).
 Proof. exact reads_in_order. Qed.
 
+(* every byte range an association ever read belongs to a datagram from its own address *)
+Theorem C09_reads_only_own_address : forall g ts s c p f off len,
+  run g init ts = Some s -> In (ERead c p f off len) (trace s) ->
+  exists k, get s c = Some k /\ src p = caddr k.
+Proof. exact reads_event_own. Qed.
+
+(* every reply is sent to the address of the association that wrote it *)
+Theorem C09_replies_to_own_address : forall g ts s c w a,
+  run g init ts = Some s -> In (EWrite c w a) (trace s) ->
+  exists k, get s c = Some k /\ caddr k = a.
+Proof. exact writes_own. Qed.
+
+(* ---- fresh_after_end ---- *)
+
+(* once the loop has processed the close notification of the association that owns address a,
+   the table entry for a and every datagram from a that the loop takes later belong to an
+   association created afterwards *)
 Theorem C09_fresh_after_end : forall g s s1 a c r ts s2,
   exec g s LoopClose = Some s1 -> closeCh s = (a, c) :: r ->
   notify_identity g = false \/ lookup a (table s) = Some c \/ lookup a (table s) = None ->
@@ -21,14 +44,122 @@ Theorem C09_fresh_after_end : forall g s s1 a c r ts s2,
   (forall p c', pending s2 = Some (p, c') -> src p = a -> length (conns s1) <= c').
 Proof. exact fresh_after_close. Qed.
 
+(* and the next datagram from an address without an entry does create one *)
+Theorem C09_next_datagram_creates : forall g s p l,
+  panicked s = false -> stopped s = false -> pending s = None -> packets s = QPkt p :: l ->
+  lookup (src p) (table s) = None ->
+  exists s', exec g s LoopRecv = Some s' /\
+    conns s' = conns s ++ [new_conn (src p)] /\
+    lookup (src p) (table s') = Some (length (conns s)) /\
+    pending s' = Some (p, length (conns s)) /\
+    trace s' = trace s ++ [ENew (length (conns s)) (src p)].
+Proof. exact absent_creates. Qed.
+
+(* the source does better: as soon as Close has signalled closure (before the loop has seen any
+   notification) the next datagram the loop takes from that address starts a new association *)
+Theorem C09_fresh_as_soon_as_closed : forall g s p l c k,
+  skips_closed g = true ->
+  panicked s = false -> stopped s = false -> pending s = None -> packets s = QPkt p :: l ->
+  lookup (src p) (table s) = Some c -> get s c = Some k -> sclosed k = true ->
+  exists s', exec g s LoopRecv = Some s' /\
+    conns s' = conns s ++ [new_conn (src p)] /\
+    lookup (src p) (table s') = Some (length (conns s)) /\
+    pending s' = Some (p, length (conns s)).
+Proof. exact closed_creates. Qed.
+Theorem C09_src_skips_closed : skips_closed src_cfg = true.
+Proof. exact src_skips_closed. Qed.
+
+(* ---- loop_never_panics ---- *)
+
+(* any Close that never closes readCh (closure is signalled on a separate channel) *)
 Theorem C09_loop_never_panics_fixed : forall g ts s,
   never_closes g -> run g init ts = Some s -> panicked s = false.
 Proof. exact never_closes_no_panic. Qed.
 
+(* the code in /repo today *)
+Theorem C09_loop_never_panics : forall ts s, run src_cfg init ts = Some s -> panicked s = false.
+Proof. exact src_no_panic. Qed.
+
+(* the code before f8df28a: close(readCh) precedes the notification *)
 Theorem C09_loop_never_panics_refuted : exists ts s, run legacy_cfg init ts = Some s /\ panicked s = true.
 Proof. exact legacy_panics. Qed.
+Theorem C09_loop_never_panics_refuted_blocked_sender : exists ts s, run legacy_cfg init ts = Some s /\ panicked s = true.
+Proof. exact legacy_panics_blocked. Qed.
+
+(* ---- one live association per client ---- *)
+
+(* when a notification identifies its association: two associations of one address that have
+   neither seen EOF nor returned are the same association *)
+Theorem C09_one_live_association_fixed : forall g ts s c1 c2 k1 k2,
+  notify_identity g = true -> run g init ts = Some s ->
+  get s c1 = Some k1 -> get s c2 = Some k2 -> caddr k1 = caddr k2 ->
+  ended c1 (trace s) = false -> ended c2 (trace s) = false -> c1 = c2.
+Proof. exact live_unique. Qed.
+Theorem C09_src_notify_identity : notify_identity src_cfg = true.
+Proof. exact src_notify_identity. Qed.
+
+(* before 9d1abd0: idle expiry, new association, then the old handler's Close: its second
+   notification deletes the new association's entry and a third one is started next to it *)
+Theorem C09_stale_close_deletes_fresh_entry_refuted :
+  exists ts s, run legacy_cfg init ts = Some s /\ panicked s = false /\ two_live s.
+Proof. exact legacy_stale_close. Qed.
+
+(* ---- obligations over the regenerated source facts ---- *)
+
+Theorem C09_src_shape_ok :
+  forallb cop_known (close_ops src_cfg) = true /\
+  1 <= cap_packets src_cfg /\ 1 <= cap_close src_cfg /\ 1 <= cap_read src_cfg /\
+  existsb (fun o => match o with CNotify => true | _ => false end) (close_ops src_cfg) = true /\
+  read_eof_notifies src_cfg = true.
+Proof. exact src_shape_ok. Qed.
+
+(* ---- the conditions the recorded event logs are checked against hold for every execution ---- *)
+
+Theorem C09_accept_own : forall g ts s, run g init ts = Some s -> own_ok (trace s) = true.
+Proof. exact own_ok_run. Qed.
+Theorem C09_accept_order : forall g ts s, run g init ts = Some s -> order_ok (trace s) = true.
+Proof. exact order_ok_run. Qed.
+Theorem C09_accept_fresh : forall g ts s,
+  notify_identity g = true -> run g init ts = Some s -> fresh_ok (trace s) = true.
+Proof. exact fresh_ok_run. Qed.
+
+(* ---- non-vacuity ---- *)
+
+Example C09_demo_two_clients : exists s, run src_cfg init demo = Some s /\
+  reads_of 0 (trace s) = [D 1 0 100%N; D 1 2 50%N] /\ reads_of 1 (trace s) = [D 2 1 300%N] /\ reads_of 2 (trace s) = [D 1 3 10%N] /\
+  writes (trace s) = [(0, 0, 1); (1, 1, 2)] /\ news (trace s) = [(0, 1); (1, 2); (2, 1)] /\
+  accepts src_cfg (trace s) = true.
+Proof. exact demo_runs. Qed.
+Example C09_src_survives_panic_witness :
+  exists s, run src_cfg init panic_witness = Some s /\ panicked s = false /\ length (conns s) = 2.
+Proof. exact src_survives_panic_witness. Qed.
+Example C09_src_survives_blocked_sender :
+  exists s, run src_cfg init blocked_then_drop = Some s /\ panicked s = false /\ pending s = None.
+Proof. exact src_survives_blocked_witness. Qed.
+Example C09_src_stale_notification_harmless :
+  exists s, run src_cfg init (firstn 16 stale_witness ++ [SockRecv (D 7 3 8%N); LoopRecv; LoopSend; ConnRead 1 9000%N]) = Some s /\
+    length (conns s) = 2 /\ reads_of 1 (trace s) = [D 7 2 8%N; D 7 3 8%N].
+Proof. exact src_stale_witness_harmless. Qed.
 
 Print Assumptions C09_per_client_in_order.
+Print Assumptions C09_reads_only_own_address.
+Print Assumptions C09_replies_to_own_address.
 Print Assumptions C09_fresh_after_end.
+Print Assumptions C09_next_datagram_creates.
+Print Assumptions C09_fresh_as_soon_as_closed.
+Print Assumptions C09_src_skips_closed.
 Print Assumptions C09_loop_never_panics_fixed.
+Print Assumptions C09_loop_never_panics.
 Print Assumptions C09_loop_never_panics_refuted.
+Print Assumptions C09_loop_never_panics_refuted_blocked_sender.
+Print Assumptions C09_one_live_association_fixed.
+Print Assumptions C09_src_notify_identity.
+Print Assumptions C09_stale_close_deletes_fresh_entry_refuted.
+Print Assumptions C09_src_shape_ok.
+Print Assumptions C09_accept_own.
+Print Assumptions C09_accept_order.
+Print Assumptions C09_accept_fresh.
+Print Assumptions C09_demo_two_clients.
+Print Assumptions C09_src_survives_panic_witness.
+Print Assumptions C09_src_survives_blocked_sender.
+Print Assumptions C09_src_stale_notification_harmless.
